@@ -26,7 +26,35 @@ from lib.verdict import Verdict
 
 PROP = "C08"
 POOL = os.path.join(ROOT, "keys", "c08")
-PW, WRONG = "Verif-C08 passé", "not the password"
+WRONG = "not the password"
+# ---- the password classes of KeyFlow.tla (PwClasses) as concrete texts; TLC checks the shape of every text used against its
+# class (PwBinds) and the harness checks that the table and the spec name the same classes
+_PWB = "Verif-C08pw"
+_PWLONG = "".join(chr(33 + (i * 7) % 90) for i in range(200))
+PWS = {
+    "plain": _PWB, "lead-sp": " " + _PWB, "trail-sp": _PWB + " ", "both-sp": " " + _PWB + " ", "lead-tab": "\t" + _PWB,
+    "trail-tab": _PWB + "\t", "trail-cr": _PWB + "\r", "trail-lf": _PWB + "\n", "trail-crlf": _PWB + "\r\n", "lead-lf": "\n" + _PWB,
+    "trail-nbsp": _PWB + "\u00a0", "inner-sp": "Verif C08 pw", "upper": _PWB.upper(),
+    "non-ascii": "Verif-C08 pass\u00e9", "non-ascii-nfd": "Verif-C08 passe\u0301",
+    "long": _PWLONG, "long-cut": _PWLONG[:72], "single": "x", "single-sp": "x ", "blank": " ",
+}
+PW = PWS["non-ascii"]  # the password of encrypted key files handed to the command line
+_WS = {9, 10, 11, 12, 13, 28, 29, 30, 31, 32, 133, 160}
+
+
+def pw_text(cls):
+    """The text of a password class of the spec ('none' = no password, 'wrong' = an unrelated text)."""
+    return None if cls == "none" else WRONG if cls == "wrong" else PWS[cls]
+
+
+def pw_shape(text):
+    """Facts about a password text for PwBinds: code points only, nothing about what any library does with it."""
+    cp = [ord(ch) for ch in (text or "")]
+    if not cp:
+        return {"n": 0, "first": 0, "last": 0, "prev": 0, "inner": 0, "hi": 0, "comb": 0, "lower": 0}
+    return {"n": len(cp), "first": cp[0], "last": cp[-1], "prev": cp[-2] if len(cp) > 1 else 0,
+            "inner": sum(1 for c in cp[1:-1] if c in _WS), "hi": sum(1 for c in cp if c >= 128 and c not in _WS),
+            "comb": sum(1 for c in cp if 0x300 <= c <= 0x36F), "lower": sum(1 for c in cp if 97 <= c <= 122)}
 CURVE_OF_BITS = {256: "secp256r1", 384: "secp384r1", 521: "secp521r1"}
 HASHES = ("sha256", "sha384", "sha512")
 
@@ -141,7 +169,7 @@ def indep_export(cobj, kk, kt, fmt, pwd, el):
         return nxp_bytes(numbers_of(cobj, "pub"), el)
     enc = {"PEM": S.Encoding.PEM, "DER": S.Encoding.DER}[fmt]
     if kk == "priv":
-        prot = S.BestAvailableEncryption(PW.encode("utf-8")) if pwd == "pw" else S.NoEncryption()
+        prot = S.BestAvailableEncryption(pw_text(pwd).encode("utf-8")) if pwd != "none" else S.NoEncryption()
         return cobj.private_bytes(enc, S.PrivateFormat.PKCS8, prot)
     return cobj.public_bytes(enc, S.PublicFormat.PKCS1 if kt == "rsa" else S.PublicFormat.SubjectPublicKeyInfo)
 
@@ -180,8 +208,8 @@ def der_payload_len(data, fmt):
     return 0
 
 
-def is_encrypted(data, fmt):
-    """Independent fact: the private-key container does not open without a password."""
+def is_encrypted(data, fmt, password):
+    """Independent fact: the private-key container does not open without a password (password: the text it was made with)."""
     S = _c()["S"]
     try:
         (S.load_pem_private_key if fmt == "PEM" else S.load_der_private_key)(data, None, unsafe_skip_rsa_key_validation=True)
@@ -191,7 +219,9 @@ def is_encrypted(data, fmt):
     except ValueError:
         # DER: an encrypted PKCS#8 blob is not a PrivateKeyInfo -> it is encrypted iff it opens WITH the password
         try:
-            (S.load_pem_private_key if fmt == "PEM" else S.load_der_private_key)(data, PW.encode("utf-8"), unsafe_skip_rsa_key_validation=True)
+            if not password:
+                return False
+            (S.load_pem_private_key if fmt == "PEM" else S.load_der_private_key)(data, password.encode("utf-8"), unsafe_skip_rsa_key_validation=True)
             return True
         except Exception:  # noqa: BLE001
             return False
@@ -634,10 +664,11 @@ def replay_flow(job):
         name = a["a"]
         if name == "Export":
             fmt, pwd, el, by = a["fmt"], a["pwd"], a["el"], a["by"]
+            pwtext = pw_text(pwd)
             if by == "spsdk":
                 o = as_sp()
                 if kk == "priv":
-                    data, e = outcome(lambda: o.export(password=PW if pwd == "pw" else None, encoding=ENC[fmt]))
+                    data, e = outcome(lambda: o.export(password=pwtext, encoding=ENC[fmt]))
                 elif kt == "rsa" and fmt == "NXP" and el == 4:
                     data, e = outcome(lambda: o.export(encoding=ENC[fmt], exp_length=4))
                 else:
@@ -655,17 +686,17 @@ def replay_flow(job):
                 except Exception as x:  # noqa: BLE001
                     raise Machinery(f"independent export failed: {x!r}") from x
             fact = {"a": "Export", "kk": kk, "fmt": fmt, "pwd": pwd, "el": el, "by": by, "ok": e is None and isinstance(data, (bytes, bytearray)),
-                    "len": -1, "derLen": -1, "indep": False, "encrypted": False}
+                    "len": -1, "derLen": -1, "indep": False, "encrypted": False, "pw": pw_shape(pwtext)}
             if fact["ok"]:
                 data = bytes(data)
                 fact["len"] = len(data)
                 fact["derLen"] = der_payload_len(data, fmt)
                 try:
-                    back = indep_parse(data, kk, kt, size, fmt, PW if pwd == "pw" else None)
+                    back = indep_parse(data, kk, kt, size, fmt, pwtext)
                     fact["indep"] = numbers_of(back, kk) == (key.privnum if kk == "priv" else key.pubnum)
                 except Exception as x:  # noqa: BLE001
                     notes.append(f"independent parse of the export: {x!r}")
-                fact["encrypted"] = is_encrypted(data, fmt) if kk == "priv" else False
+                fact["encrypted"] = is_encrypted(data, fmt, pwtext) if kk == "priv" else False
                 blob = (data, fmt, pwd)
             else:
                 notes.append(f"export: {e}")
@@ -676,7 +707,7 @@ def replay_flow(job):
             entry, given, by = a["entry"], a["given"], a["by"]
             data, fmt, pwd = blob
             okk = kk
-            password = {"pw": PW, "none": None, "wrong": WRONG}[given]
+            password = pw_text(given)
             if entry == "cli":
                 inf, outf = cli_file(fmt.lower(), data), cli_file("pem")
                 ok_, _, err = run_cli(["key", "convert", "-e", "PEM", "-i", inf, "-o", outf])
@@ -743,7 +774,8 @@ def replay_flow(job):
                     notes.append(f"independent parse: {x!r}")
                 if res == "same":
                     cur = ("crypt", got)
-            ev.append({"a": "Parse", "kk": okk, "entry": entry, "given": given, "by": by, "res": res})
+            ev.append({"a": "Parse", "kk": okk, "entry": entry, "given": given, "by": by, "res": res,
+                       "gpw": pw_shape(password), "eq": password == pw_text(pwd)})
             if res != a["res"]:
                 break  # the rest of the behaviour has no meaning any more; TLC rejects this step
         elif name == "ToPublic":
@@ -910,7 +942,7 @@ def flow_key(tr, matched):
     if a == "Key":
         return f"C08/{kts}/key-binding/{e['prof']}/dflt={tr['dflt']}"
     if a == "Export":
-        bad = [k for k in ("ok", "indep") if not e[k]] + ([] if e["encrypted"] == (e["pwd"] == "pw") else [f"encrypted={e['encrypted']}"])
+        bad = [k for k in ("ok", "indep") if not e[k]] + ([] if e["encrypted"] == (e["pwd"] != "none") else [f"encrypted={e['encrypted']}"])
         bad = bad or [f"len={e['len']}"]
         return f"C08/{kts}/{e['kk']}-{e['fmt']}/export/by-{e['by']}/pwd={e['pwd']}/el={e['el']}/{'+'.join(bad)}"
     if a == "Parse":
@@ -942,8 +974,9 @@ def check_actions(r, names):
         raise Machinery(f"vacuous actions in KeyFlow: {vac} (coverage {r.coverage})")
 
 
-def gen(flow, depth, simulate=None, sim_depth=None, menu="any"):
-    r = tlc.run("C08", "KeyFlowGen", "KeyFlowGen.cfg", workers=1, deadlock=False, env={"GEN_DEPTH": depth, "GEN_FLOW": flow, "GEN_MENU": menu},
+def gen(flow, depth, simulate=None, sim_depth=None, menu="any", pw="all"):
+    r = tlc.run("C08", "KeyFlowGen", "KeyFlowGen.cfg", workers=1, deadlock=False,
+                env={"GEN_DEPTH": depth, "GEN_FLOW": flow, "GEN_MENU": menu, "GEN_PW": pw},
                 heap="6g", simulate=simulate, depth=sim_depth, timeout=900)
     behs = r.json_prints()
     if not behs:
@@ -960,9 +993,10 @@ def canary(v):
         {"a": "Tamper", "what": "sigbit"},
         {"a": "Verify", "by": "indep", "Q": {"hash": "sha256", "pad": "ecdsa", "pre": False}}]}, "key": 0, "salt": 0})
     good_key = replay_flow({"beh": {"flow": "key", "kt": "ecc", "size": 256, "kk0": "priv", "hist": [
-        {"a": "Export", "fmt": "PEM", "pwd": "pw", "el": 0, "by": "indep"},
+        {"a": "Export", "fmt": "PEM", "pwd": "trail-crlf", "el": 0, "by": "indep"},
         {"a": "Parse", "entry": "typed", "given": "none", "by": "indep", "res": "refused"},
-        {"a": "Parse", "entry": "typed", "given": "pw", "by": "indep", "res": "same"},
+        {"a": "Parse", "entry": "typed", "given": "plain", "by": "indep", "res": "refused"},
+        {"a": "Parse", "entry": "typed", "given": "trail-crlf", "by": "indep", "res": "same"},
         {"a": "ToPublic"},
         {"a": "Export", "fmt": "NXP", "pwd": "none", "el": 0, "by": "indep"}]}, "key": 0, "salt": 0})
     good_flow["id"], good_key["id"] = "good-sig", "good-key"
@@ -978,7 +1012,11 @@ def canary(v):
     corrupt(good_flow, "bad-diag", lambda t: t["ev"][3]["Q"].__setitem__("hash", "sha384"))     # off the diagonal but "true"
     corrupt(good_flow, "bad-len", lambda t: t["ev"][2].__setitem__("outLen", 65))               # raw P-256 signature of 65 bytes
     corrupt(good_key, "bad-nopwd", lambda t: t["ev"][2].__setitem__("res", "same"))             # encrypted container opened without password
-    corrupt(good_key, "bad-nxp", lambda t: t["ev"][5].__setitem__("len", 65))                   # X||Y of 65 bytes
+    corrupt(good_key, "bad-nxp", lambda t: t["ev"][6].__setitem__("len", 65))                   # X||Y of 65 bytes
+    corrupt(good_key, "bad-near", lambda t: t["ev"][3].__setitem__("res", "same"))              # opened by a near miss of its password
+    corrupt(good_key, "bad-strip", lambda t: t["ev"][4].__setitem__("res", "refused"))          # its own password refused
+    corrupt(good_key, "bad-pwclass", lambda t: t["ev"][1]["pw"].__setitem__("last", 119))       # text without the promised CR LF
+    corrupt(good_key, "bad-given", lambda t: t["ev"][4].__setitem__("eq", False))               # another text than the one exported with
     corrupt(good_key, "bad-enc", lambda t: t["ev"][1].__setitem__("encrypted", False))          # password ignored
     corrupt(good_key, "bad-prof", lambda t: t["ev"][0].__setitem__("prof", "x-z2"))             # profile not the key's
     rej, _ = tlc.tv("C08", "KeyFlowTrace", [good_flow, good_key] + bad)
@@ -997,7 +1035,7 @@ def canary(v):
     rej, _ = tlc.tv("C08", "KeyCodecTrace", obs)
     if set(rej) != {"bad-derlen", "bad-parse", "bad-prof", "bad-sp"}:
         raise Machinery(f"canary (codec) failed: rejected {sorted(rej)} / observation {g['o']}")
-    v.extra["canary"] = "2 good flow traces + 1 good codec observation accepted; 7 + 4 single-field corruptions rejected"
+    v.extra["canary"] = "2 good flow traces + 1 good codec observation accepted; 11 + 4 single-field corruptions rejected"
     _ = key
 
 
@@ -1087,18 +1125,25 @@ def run(tier):
     bg = Bg()
     bg.start("mc1", tlc.mc, "C08", "KeyCodecMC", "KeyCodecMC.cfg", workers=1, coverage=False, heap="6g", timeout=900)
     bg.start("mc2", tlc.mc, "C08", "KeyFlow", "KeyFlowMC.cfg", workers=2, coverage=True, timeout=900)
-    bg.start("key/2", gen, "key", 2)
+    # passwords: the lane "pw" takes EVERY password class of the spec through export - parse (every container, party, entry point,
+    # everything that may be offered); the other key lanes mix ONE class, drawn from the seed, with everything else they vary
+    # ("plain" is left to the lane "pw": all the other classes are its near misses, which would multiply those lanes by five)
+    gpw = r.choice(sorted(set(PWS) - {"plain"}))
+    v.extra["password_class_of_the_general_lanes"] = gpw
+    bg.start("pw/2", gen, "key", 2, menu="pw")
+    bg.start("key/2", gen, "key", 2, pw=gpw)
     bg.start("sig/2", gen, "sig", 2)
     bg.start("sig/sweep", gen, "sig", 3, menu="sweep")
     if quick:  # deeper behaviours are drawn by simulation; the thorough tier enumerates them
-        bg.start("key/sim3", gen, "key", 3, simulate="num=400", sim_depth=5)
-        bg.start("key/sim", gen, "key", 7, simulate="num=80", sim_depth=9)
+        bg.start("key/sim3", gen, "key", 3, simulate="num=400", sim_depth=5, pw=gpw)
+        bg.start("key/sim", gen, "key", 7, simulate="num=80", sim_depth=9, pw=gpw)
         bg.start("sig/sim3-mid", gen, "sig", 3, simulate="num=2500", sim_depth=5, menu="mid")
         bg.start("sig/sim", gen, "sig", 8, simulate="num=400", sim_depth=10)
     else:
-        bg.start("key/3", gen, "key", 3)
-        bg.start("key/4", gen, "key", 4)
-        bg.start("key/sim", gen, "key", 7, simulate="num=1500", sim_depth=9)
+        bg.start("pw/3", gen, "key", 3, menu="pw")
+        bg.start("key/3", gen, "key", 3, pw=gpw)
+        bg.start("key/4", gen, "key", 4, pw=gpw)
+        bg.start("key/sim", gen, "key", 7, simulate="num=1500", sim_depth=9, pw=gpw)
         bg.start("sig/3-mid", gen, "sig", 3, menu="mid")
         bg.start("sig/3", gen, "sig", 3)
         bg.start("sig/sim", gen, "sig", 8, simulate="num=8000", sim_depth=10)
@@ -1124,9 +1169,11 @@ def run(tier):
         idx = list(range(len(cases)))
     jobs = []
 
-    def add(name, keys_per_beh, sample=None, rsa_keys=None, skew=False, allpub=False):
+    def add(name, keys_per_beh, sample=None, rsa_keys=None, skew=False, allpub=False, thin=None):
         behs, g = bg.get(name)
         v.add_mc(g)
+        if thin:  # keep a behaviour with the probability given for its key type (1 = the lane stays exhaustive for that type)
+            behs = [b for b in behs if thin[b["size"]] >= 1 or r.random() < thin[b["size"]]]
         if skew:  # parsing an RSA private key costs 0.05 / 0.13 / 0.3 s (key validation): the quick tier takes fewer of the big ones
             w = {2048: 1.0, 3072: 0.5, 4096: 0.3}
             behs = [b for b in behs if b["kt"] == "ecc" or b["kk0"] == "pub" or r.random() < w[b["size"]]]
@@ -1141,7 +1188,12 @@ def run(tier):
             for ki in pick:
                 jobs.append({"beh": b, "key": ki, "salt": r.randrange(1 << 16), "label": name})
 
+    seen_pw = {b["hist"][0]["pwd"] for b in bg.get("pw/2")[0]}
+    if seen_pw != set(PWS):
+        raise Machinery(f"password classes of the spec and of the harness differ: {sorted(seen_pw ^ set(PWS))}")
     if quick:
+        # exhaustive on P-256, every second behaviour on RSA-2048; the other types are thinned (an RSA-4096 key costs 0.45 s to parse)
+        add("pw/2", 1, thin={256: 1, 384: 0.2, 521: 0.2, 2048: 0.5, 3072: 0.15, 4096: 0.08})
         add("key/2", 3, rsa_keys=1, allpub=True, skew=True)
         add("key/sim3", 1, skew=True)
         add("key/sim", 1, skew=True)
@@ -1149,6 +1201,8 @@ def run(tier):
         add("sig/sim3-mid", 1)
         add("sig/sim", 1)
     else:
+        add("pw/2", 2, rsa_keys=1)
+        add("pw/3", 1, sample=15000, skew=True)
         add("key/2", None)
         add("key/3", 1, rsa_keys=1, allpub=True)
         add("key/4", 1, sample=5000)
@@ -1278,7 +1332,11 @@ def run(tier):
         "tier) verified in both encodings, with one flipped bit and another message; flow lane: behaviours of KeyFlow (exhaustive depth 2, "
         "depth 3-4 exhaustive in the thorough tier and simulated in the quick tier, simulated depth 7-8; parties: library, nxpcrypto command "
         "line, cryptography, pure Python) replayed on pool keys (RSA 2048/3072/4096, P-256/384/521 with leading zero / 0x04 / 0x30 bytes in X "
-        "or Y, tiny private scalars); tamper sweep: Sign - flip bit i - Verify for every bit i of the signature / of a 16-byte message "
+        "or Y, tiny private scalars); password lane: export - parse of private keys for EVERY password class of the spec (20: white space "
+        "in front / at the end - blank, tab, CR, LF, CR LF, no-break space -, white space inside, upper case, composed / decomposed accent, "
+        "200 characters and their prefix, one character, one blank) x {PEM, DER} x exporting party x everything that may be offered (the "
+        "password, none, an unrelated text, every near miss) x entry point x parsing party, exhaustive (quick tier: exhaustive on "
+        "P-256, every second behaviour on RSA-2048, 8-20 % on the other key types); the other key lanes use one class drawn from the seed; tamper sweep: Sign - flip bit i - Verify for every bit i of the signature / of a 16-byte message "
         "(thorough) or a stratified sample (quick). A case is non-trivial if it produced at least one event beyond the key binding; "
         "distinct by (profile) resp. (behaviour, concrete key, prescribed bit)"
     )
@@ -1289,6 +1347,10 @@ def run(tier):
         "hash algorithms asserted: SHA-256 / SHA-384 / SHA-512 (and the key's default, identified independently); SHA-1, MD5, SM3 are outside the asserted domain",
         "RSA keys have public exponent 65537 and a modulus of exactly the nominal bit length (top bit set): 'leading zero' for RSA is the DER sign pad and the NXP exponent width 3 or 4",
         "a password offered for an unencrypted container, and raw byte strings that are themselves well-formed PEM / DER (inherently ambiguous), are outside the domain",
+        "passwords are non-empty texts of at most 200 characters, encoded as UTF-8 (what SPSDK documents and what the independent base uses); the empty password and "
+        "texts beyond the 1023-byte limit of the OpenSSL backend are outside the domain",
+        "the command line receives the password of an encrypted key file through load_secret (a path, $VARIABLE or ~ is expanded, the first line of a file is stripped): "
+        "only one ordinary password is handed to `nxpcrypto signature create -p`; white-space / $ / ~ passwords on the command line are not asserted",
         "'does not verify' = anything but True (False or an exception); exception types are recorded, not judged",
         "private keys are PKCS#8 (what SPSDK exports); other containers (SEC1 / PKCS#1 private, OpenSSH) are not part of 'parsing what was exported'",
         "ECDSASignature.parse(DER) is required to return the curve of the signature although DER does not carry it (as its API promises); failures are keyed by the I-spec's prediction",
